@@ -58,6 +58,8 @@ type interp struct {
 	trace    []Decision
 	pc       []*smt.Term
 	pcSet    map[int]bool
+	model    map[string]uint64 // a model of the current path condition, or nil
+	pending  []pendingAssert
 	steps    int
 	dead     bool
 	nondetN  map[string]int
@@ -74,6 +76,11 @@ type interp struct {
 	preempts  int
 	locks     map[*value]*lockState
 	schedLog  []int
+	interferer      value
+	interfereDone   bool
+	inInterferer    bool
+	interferePoints int
+	inInit          int
 
 	// misc model state
 	clockN   int
@@ -532,6 +539,8 @@ func (in *interp) callSSA(caller *frame, callpos token.Pos, fn *ssa.Function, ar
 		}
 		in.inited[fn.Pkg] = true
 		in.initPackageGlobals(fn.Pkg)
+		in.inInit++
+		defer func() { in.inInit-- }()
 	}
 	if cfg.isHolePkg(path) {
 		return in.holeResult(fn.Signature.Results())
